@@ -230,6 +230,10 @@ C["C04"]["harnesses"] += [
     H("ZZStopAfterDownloadOnce", "torrent", "complete torrent added with stop-after-download: stops by itself once and clears the option once; a later start command takes effect (Seeding), the option is not cleared twice", T(40, 600, flags=["-nospawn"]), T(40, 600, flags=["-nospawn"]), replay="model"),
 ]
 
+CIF = H("ZZAnnouncerCompleteInFlight", "internal/announcer", "the download completes while an announce ('started' or a later periodic one) is still in flight at a slow tracker: the in-flight announce is cancelled, 'completed' is announced on a live context, its reply is processed (announcer leaves 'contacting'), and the next periodic announce goes out when the timer fires", T(45, 600), T(45, 600), replay="model")
+C["C16"]["harnesses"] += [CIF]
+C["C15"]["harnesses"] += [CIF]
+
 for pid, spec in C.items():
     spec = dict(property=pid, **spec)
     json.dump(spec, open(os.path.join(D, pid + ".json"), "w"), indent=1)
